@@ -42,6 +42,17 @@ def c09_case(rnd, cs, job, acc):
     for t in m["tasks"]:
         if t.get("priority") == 1:
             t["priority"] = 2
+    if not m["alap"] and rnd.random() < 0.15:
+        # backward-scheduled tasks inside a forward project ('scheduling alap' + end on a leaf with predecessors; the
+        # predecessors are switched to backward mode too): an intruder that depends on one of them waits for it - a
+        # backward task must not wait for a forward successor in turn
+        cands = [t for t in m["tasks"] if not t["container"] and t.get("deps") and "start" not in t and "end" not in t]
+        for t in rnd.sample(cands, min(len(cands), rnd.randint(1, 2))):
+            t["task_alap"] = True
+            t["end"] = m["start"] + timedelta(days=rnd.randint(4, 12), minutes=rnd.randrange(0, 24 * 60, m["res"]))
+            for d in t["deps"]:
+                d.pop("onstart", None)
+            acc.count("bases-with-task-level-alap")
     scen = None
     if rnd.random() < 0.12:
         # the same with further (nested) scenarios: the intruder must not disturb any of them (seeded change C09-e shared
@@ -60,9 +71,26 @@ def c09_case(rnd, cs, job, acc):
         intr["alloc"] = [r["id"]]
     if rnd.random() < 0.3 and not m["alap"]:
         intr["start"] = m["start"] + timedelta(days=rnd.randrange(0, 6), minutes=rnd.randrange(0, 24 * 60, m["res"]))
+    if rnd.random() < (0.5 if any(t.get("task_alap") for t in m["tasks"]) else 0.15) and "start" not in intr and not m["alap"]:
+        # the intruder may depend on others (nothing depends on IT): it waits for them and disturbs nobody. (Forward projects
+        # only: in a backward project the roles of an edge are reversed - the predecessor is placed AFTER and in front of
+        # its successor, so there something does depend on a task that names a predecessor)
+        intr["deps"] = [{"to": rnd.choice(m2["tasks"])["path"]}]
+        acc.count("intruders-with-dependencies")
     roots = [i for i, t in enumerate(m2["tasks"]) if len(t["path"]) == 1]
     pos = rnd.choice(roots + [len(m2["tasks"])])
-    m2["tasks"].insert(pos, intr)
+    iid = "zz_intruder"
+    if rnd.random() < 0.2:
+        # the lowest priority is INHERITED: stated on a container two levels above the intruder (seeded change C09-f
+        # handed inherited attributes down one level only, the intruder silently got the default 500)
+        iid = "zz_wrap.zz_mid.zz_intruder"
+        intr["path"] = ("zz_wrap", "zz_mid", "zz_intruder")
+        wrap = {"path": ("zz_wrap",), "container": True, "priority": intr.pop("priority")}
+        mid = {"path": ("zz_wrap", "zz_mid"), "container": True}
+        m2["tasks"][pos:pos] = [wrap, mid, intr]
+        acc.count("intruders-with-inherited-priority")
+    else:
+        m2["tasks"].insert(pos, intr)
     gen.assign_decl(m2)
     text2 = gen.render(m2, scenarios=scen)
     p1, _, ev1 = run(text1)
@@ -77,7 +105,7 @@ def c09_case(rnd, cs, job, acc):
     # non-trivial: the intruder wants a resource-day that P uses
     obs2 = oracles.Obs(p2)
     days_p = {(rid, (idx * m["res"]) // 1440) for rid, d in led1.items() for idx in d}
-    days_i = {(rid, (idx * m["res"]) // 1440) for rid, sl in obs2.per_task.get("zz_intruder", {}).items() for idx in sl}
+    days_i = {(rid, (idx * m["res"]) // 1440) for rid, sl in obs2.per_task.get(iid, {}).items() for idx in sl}
     competes = bool(days_p & days_i)
     if competes:
         acc.count("nontrivial")
@@ -92,13 +120,13 @@ def c09_case(rnd, cs, job, acc):
     rp = dict(property="C09", seed=cs, model=m, text=text1, text2=text2)
     if diff:
         k = diff[0]
-        acc.violation("C09", "intruder-changed-other-task", dict(task=k, without=d1[k], with_intruder=d2.get(k), ndiff=len(diff), intruder=d2.get("zz_intruder")),
+        acc.violation("C09", "intruder-changed-other-task", dict(task=k, without=d1[k], with_intruder=d2.get(k), ndiff=len(diff), intruder=d2.get(iid)),
                       [], dict(rp, clause="intruder-changed-other-task"))
     picks = [e["t"] for e in ev2 if e["k"] == "pick"]
     acc.count("ev:pick", len(picks))
-    if "zz_intruder" in picks and all(v[0] for k, v in d2.items() if k != "zz_intruder") and picks[-1] != "zz_intruder":
+    if iid in picks and all(v[0] for k, v in d2.items() if k != iid) and picks[-1] != iid:
         acc.violation("C09", "intruder-not-picked-last", dict(picks=picks[-5:]), [], dict(rp, clause="intruder-not-picked-last"))
-    acc.sample(dict(seed=cs, base=text1, intruder=common.plain(intr), position=pos, intruder_result=d2.get("zz_intruder"), competes=competes,
+    acc.sample(dict(seed=cs, base=text1, intruder=common.plain(intr), position=pos, intruder_result=d2.get(iid), competes=competes,
                     others_unchanged=not diff), limit=2)
     # ---- corollary: two independent tasks competing for one resource: higher priority is served first
     if rnd.random() < 0.25:
@@ -152,6 +180,11 @@ def c14_case(rnd, cs, job, acc):
              dict(subslot=False, limits=True, weeks=(1, 2), leaves=True), dict(subslot=True, alap=True)]
     kw = dict(rnd.choice(kinds))
     kw.update(tz=False, res_choices=(60, 60, 30, 15), special_start=0.5)
+    if kw.get("subslot") and rnd.random() < 0.3:
+        # slot lengths that divide neither an hour nor a week: the project's slot grid then starts at the PROJECT START and
+        # nowhere else - pins, bounds and leave borders lie inside slots, and where inside depends on nothing but the
+        # distance from the project start (seeded change C14-f numbered slots on an absolute grid)
+        kw["res_choices"] = (11, 13, 25, 50, 7, 45)
     m = gen.gen(rnd, **kw)
     if not m["acyclic"]:
         acc.count("skipped-cyclic")
@@ -335,6 +368,8 @@ def macro_rewrite(rnd, text):
     out = []
     hdr = re.search(r'^project \w+ "[^"]*" (\S+) \+', text, re.M)
     pstart = hdr.group(1) if hdr else None
+    shared = rnd.random() < 0.4      # ONE parameterised macro for all moved efforts / dates: called again and again with different
+    shared_defs = set()              # arguments (seeded change C15-f remembered the first call's substitution per macro NAME)
     for line in lines:
         s = line.strip()
         k = rnd.random()
@@ -361,7 +396,14 @@ def macro_rewrite(rnd, text):
             name = "mE%d" % n
             n += 1
             if rnd.random() < 0.5:
-                defs.append("macro %s [ effort $1 ]" % name)
+                if shared:
+                    name = "mEshared"
+                    if name not in shared_defs:
+                        shared_defs.add(name)
+                        defs.append("macro mEinner [ effort $1 ]")
+                        defs.append("macro %s [ ${mEinner $1} ]" % name if rnd.random() < 0.3 else "macro %s [ effort $1 ]" % name)
+                else:
+                    defs.append("macro %s [ effort $1 ]" % name)
                 out.append("  ${%s %s}" % (name, mm.group(2)))
             else:
                 defs.append("macro %s [ %s ]" % (name, s))
@@ -373,7 +415,13 @@ def macro_rewrite(rnd, text):
                 defs.append("macro %s [%s]" % (name, md.group(2)))
                 out.append("  %s ${%s}" % (md.group(1), name))
             else:
-                defs.append("macro %s [ $1 $2 ]" % name)
+                if shared:
+                    name = "mDshared"
+                    if name not in shared_defs:
+                        shared_defs.add(name)
+                        defs.append("macro %s [ $1 $2 ]" % name)
+                else:
+                    defs.append("macro %s [ $1 $2 ]" % name)
                 out.append("  ${%s %s %s}" % (name, md.group(1), md.group(2)))
         elif re.match(r"^(allocate|priority|depends|limits|efficiency|milestone)\b", s) and '"' not in s and k < 0.3 and "${" not in s:
             name = "mA%d" % n
